@@ -545,6 +545,7 @@ Proof.
   { intros G. destruct (Qle_bool u (1 / (Qnat (length (cands p)) - 1))).
     - unfold C01_dictator.brd_np in G.
       destruct (Qeq_bool (total_wt (ballots p)) 0); [discriminate|].
+      destruct (Qeq_bool (squares_mass cand (escores prev) (total_wt (ballots p))) 0); [discriminate|].
       apply C10_quiet.mbind_ok_inv in G. destruct G as (dc & s2 & _ & G).
       destruct dc as [| | | |w|]; try discriminate.
       destruct (memb w (map fst (escores prev))); [|discriminate].
@@ -617,6 +618,67 @@ Proof.
   destruct (dictator_loop_chain _ _ _ _ _ _ _ _ _ H) as (chain & Hout & Hch).
   exists s0, chain. split; [exact Hout|]. split; [exact (round0_escores p s0 Hs0)|].
   split; [exact Hch|exact (dict_chain_linked _ _ _ _ _ _ Hch)].
+Qed.
+
+(* ------------------------------------------------------------------ *)
+(** * 7. The errors of a step played from a linked state *)
+
+(* a valid profile without candidates has no ballots *)
+Lemma wf_no_cands_no_ballots : forall p : profile, wf_profile p -> cands p = [] -> ballots p = [].
+Proof.
+  intros p [_ Hbs] Hc. destruct (ballots p) as [|b bs]; [reflexivity|exfalso].
+  inversion Hbs as [|b' l' Hb _]; subst. destruct Hb as (Hne & Hg & _ & Hincl).
+  destruct (rk b) as [|g r]; [apply Hne; reflexivity|].
+  inversion Hg as [|g' l'' Hgne _]; subst. destruct g as [|c g]; [apply Hgne; reflexivity|].
+  rewrite Hc in Hincl. apply (Hincl c). rewrite (flat_cons cand). left. reflexivity.
+Qed.
+
+(* the normaliser of the squares is non-zero on the first-place tally of a valid profile with a
+   positive total weight: numpy's "probabilities contain NaN" then has the single cause total = 0 *)
+Theorem fpv_squares_mass_nonzero : forall (p : profile) d, wf_profile p ->
+  first_place_votes p = inl d -> 0 < total_wt (ballots p) ->
+  ~ squares_mass cand d (total_wt (ballots p)) == 0.
+Proof.
+  intros p d Hwf Hd Ht Hz.
+  assert (Ht' : ~ total_wt (ballots p) == 0) by (intros E; rewrite E in Ht; apply (Qlt_irrefl 0); exact Ht).
+  assert (Hn : (1 <= length (cands p))%nat).
+  { destruct (cands p) as [|c cs] eqn:Hc; [exfalso|cbn [length]; lia].
+    rewrite (wf_no_cands_no_ballots p Hwf Hc) in Ht. apply (Qlt_irrefl 0). exact Ht. }
+  pose proof (fpv_sumsq_pos p d Hwf Hd Hn Ht) as Hs.
+  apply (squares_mass_zero_iff cand d _ Ht') in Hz. rewrite Hz in Hs. apply (Qlt_irrefl 0). exact Hs.
+Qed.
+
+(* hence, from a state that holds the first-place tallies of the profile (every state a run passes
+   to a step: [run_dictator_linked], C01_dictator.dictator_run_errors), the errors of the boosted
+   step are what they were before the normaliser test was modelled *)
+Theorem brd_step_errors_linked : forall (p : profile) (prev : estate) (s : mstate) e,
+  ranked_profile cand p -> first_place_votes p = inl (escores prev) ->
+  brd_step p prev s = inr e ->
+  (e = EIndex /\ ballots p = []) \/ (e = EValue /\ total_wt (ballots p) <= 0) \/ e = EScript.
+Proof.
+  intros p prev s e Hr Hd H.
+  destruct (C01_dictator.brd_step_errors cand ceqb ceqb_spec p prev s e Hr H) as [Hi|[(Hv & Hc)|Hs]].
+  - left. exact Hi.
+  - right. left. split; [exact Hv|]. destruct Hc as [Hc|Hc]; [exact Hc|].
+    destruct (Qlt_le_dec 0 (total_wt (ballots p))) as [Hpos|Hle]; [exfalso|exact Hle].
+    exact (fpv_squares_mass_nonzero p (escores prev) (proj1 Hr) Hd Hpos Hc).
+  - right. right. exact Hs.
+Qed.
+
+(* a failed boosted run: seat count out of range, or one of the three errors of a round played on a
+   reduced profile *)
+Theorem brd_run_errors_linked : forall m (p : profile) (s : mstate) e,
+  ranked_profile cand p -> run_dictator cand ceqb true m p s = inr e ->
+  (e = EValue /\ ~ (1 <= m <= Z.of_nat (length (cands p)))%Z) \/
+  (exists cur : profile, ranked_profile cand cur /\ incl (cands cur) (cands p) /\
+     ((e = EIndex /\ ballots cur = []) \/ (e = EValue /\ total_wt (ballots cur) <= 0) \/
+      e = EScript)).
+Proof.
+  intros m p s e Hr H.
+  destruct (C01_dictator.dictator_run_errors cand ceqb ceqb_spec true m p s e Hr H)
+    as [Hl|(cur & prev & s1 & Hc & Hsub & Hd & Hstep)]; [left; exact Hl|right].
+  exists cur. split; [exact Hc|]. split; [exact Hsub|].
+  exact (brd_step_errors_linked cur prev s1 e Hc Hd Hstep).
 Qed.
 
 End C17B.
